@@ -437,7 +437,8 @@ def validate(chk, units, cat=None, workers=12):
 
 
 def model_check(chk):
-    r = tlc.must(tlc.run('VTLApi', 'VTLApi_small.cfg', workers=4), 'VTLApi')
+    r = tlc.must(tlc.run('VTLApi', 'VTLApi_small.cfg', workers=4, coverage=True), 'VTLApi')
+    tlc.vacuity(chk, r, 'VTLApi')
     chk.add('states', r.states)
     chk.add('transitions', r.generated)
     chk.notes['model'] = {'module': 'VTLApi', 'states': r.states, 'invariants': ['ArgsUnchanged', 'OutcomeAlphabet', 'FilesFaithful']}
